@@ -146,6 +146,7 @@ def generate(repo):
         ('OT_SPLIT_KEY', enums.ObjectType.SPLIT_KEY), ('OT_SECRET_DATA', enums.ObjectType.SECRET_DATA),
         ('OT_OPAQUE_DATA', enums.ObjectType.OPAQUE_DATA),
         ('SKM_POLY_PRIME', enums.SplitKeyMethod.POLYNOMIAL_SHARING_PRIME_FIELD),
+        ('SDT_SEED', enums.SecretDataType.SEED),
     ]
 
     # ---- attribute rules
